@@ -133,3 +133,6 @@ Proof. exact instances_agree_fn. Qed.
 Theorem C15_executable_kinds : forall (k : kind Q) n, exec_kind_all k n <->
   match k with KI _ bp _ => forall i, (i < n)%nat -> exists z, pnth bp i = inject_Z z | KA f _ => exec_fn f | _ => True end.
 Proof. intros [] n; reflexivity. Qed.
+Theorem C15_source_gdevice_cost : forall n g (s p : list R), List.length s = n -> List.length p = n ->
+  GDevice_cost (A:=R) n g s p = gdev_cost g s p.
+Proof. exact gen_gdevice_cost. Qed.
